@@ -64,7 +64,7 @@ def run(chk, want=("enc", "dec")):
     chk.log(f"{len(cases)} cases from {len(schemas)} schemas; implementation-side failures: {len(fails)}")
     chk.coverage["traces_validated_against_impl"] = len(cases)
     mism = []
-    if broken is None:
+    if broken is None or chk.corr_buildable(["Corr/Serde.vo"]):
         try:
             mism = common.run_cases("Serde", cases)
         except common.CoqError as e:
